@@ -167,7 +167,7 @@ for _dtls in (False, True):
         check_against_reference(vc, out, ref, data)
 
     scenario(("dtls." if _dtls else "tls.") + "get_client_hello.reference", functions=[_fn, _gen, N + (":starts_like_dtls_record" if _dtls else ":starts_like_tls_record")],
-             lazy_generators=True, max_unroll=3)(_s_get)
+             lazy_generators=True, pc_slices=True, max_unroll=3)(_s_get)
 
     def _s_prefix(vc, _dtls=_dtls, _fn=_fn):
         """(P) a complete hello is not changed by any bytes that follow (later records, the next segment)."""
@@ -185,7 +185,7 @@ for _dtls in (False, True):
         if not isnone(o2.result):
             vc.ensure("P.same_hello", o2.result == o1.result)
 
-    scenario(("dtls." if _dtls else "tls.") + "get_client_hello.stable_under_extension", functions=[_fn, _gen], lazy_generators=True, max_unroll=3)(_s_prefix)
+    scenario(("dtls." if _dtls else "tls.") + "get_client_hello.stable_under_extension", functions=[_fn, _gen], lazy_generators=True, pc_slices=True, max_unroll=3)(_s_prefix)
 
     def _s_trunc(vc, _dtls=_dtls, _fn=_fn):
         """(M) every prefix of a stream with a complete hello is either incomplete or already gives the same hello — never an error."""
@@ -202,7 +202,7 @@ for _dtls in (False, True):
         if not isnone(o1.result):
             vc.ensure("M.prefix_same_hello", o1.result == o2.result)
 
-    scenario(("dtls." if _dtls else "tls.") + "get_client_hello.prefix_never_invalid", functions=[_fn, _gen], lazy_generators=True, max_unroll=3)(_s_trunc)
+    scenario(("dtls." if _dtls else "tls.") + "get_client_hello.prefix_never_invalid", functions=[_fn, _gen], lazy_generators=True, pc_slices=True, max_unroll=3)(_s_trunc)
 
 
 # ---------------------------------------------------------------------------------------------
